@@ -188,18 +188,25 @@ class _Actor(object):
                 if cl and self.pc == cl["at"] and not getattr(self, "clone_trace", None):
                     import copy
                     import pickle
-                    if cl["how"] == "pickle":
-                        other = pickle.loads(pickle.dumps(self.obj))
-                    elif cl["how"] == "copy":
-                        other = copy.deepcopy(self.obj)
-                        other2 = copy.deepcopy(other)      # a copy of the copy, stepped first
-                        other2.add_row()
-                    else:
-                        other = copy.deepcopy(self.obj)
-                    self.clone_trace = []
-                    for _ in range(cl["rows"]):
-                        o2 = other.add_row()
-                        self.clone_trace.append(("ok", core.hbytes(repr(screens.abytes(o2)[:2]).encode() + screens.abytes(o2)[2])))
+                    try:
+                        if cl["how"] == "pickle":
+                            other = pickle.loads(pickle.dumps(self.obj))
+                        elif cl["how"] == "copy":
+                            other = copy.deepcopy(self.obj)
+                            other2 = copy.deepcopy(other)      # a copy of the copy, stepped first
+                            other2.add_row()
+                        else:
+                            other = copy.deepcopy(self.obj)
+                    except Exception:
+                        other = None       # an object that cannot be copied / pickled: not this property's business
+                    if other is not None:
+                        self.clone_trace = []
+                        for _ in range(cl["rows"]):
+                            try:
+                                o2 = other.add_row()
+                                self.clone_trace.append(("ok", core.hbytes(repr(screens.abytes(o2)[:2]).encode() + screens.abytes(o2)[2])))
+                            except Exception as ex2:
+                                self.clone_trace.append(("raised", type(ex2).__name__))
                 if sp.get("restart") is not None and self.pc == sp["restart"] + 1:
                     self.obj.make_initial_screen()
                     out = self.obj.scrn
